@@ -253,7 +253,8 @@ pub mod sched {
         /// the run was torn down by the scheduler (no runnable thread, or budget used up)
         pub deadlock: bool,
         pub steps: usize,
-        /// shim threads that had not finished when `f` returned (they are torn down by `run`)
+        /// shim threads that never finished although they were given every chance after `f` had
+        /// returned or panicked: stuck for good (they are torn down by `run`)
         pub leftover: usize,
     }
 
@@ -284,8 +285,18 @@ pub mod sched {
         let result = std::panic::catch_unwind(std::panic::AssertUnwindSafe(f));
         let mut g = c.inner.lock().unwrap();
         g.threads[0] = TState::Finished;
-        let trace = g.trace.clone();
         let deadlock = g.aborted;
+        // `f` is done (returned or panicked): let the threads it left behind run on, until all of
+        // them have finished or none of them can run any more (those are stuck for good)
+        if !g.aborted {
+            g.current = usize::MAX;
+            g.dispatch();
+            c.cv.notify_all();
+            while !(g.aborted || g.threads.iter().all(|s| *s == TState::Finished)) {
+                g = c.cv.wait(g).unwrap();
+            }
+        }
+        let trace = g.trace.clone();
         let steps = g.steps;
         let leftover = g
             .threads
